@@ -1508,12 +1508,17 @@ func runCase(rt *rapid.T, c *stats.Case, known bool) {
 					if v.held >= 0 && p.num == uint64(v.held)+1 {
 						c.Label("held:fetch-error-for-block-above-held")
 					}
-				case hd < 30 && p.num < uint64(v.srcLen):
+				case (hd < 30 || hd >= 84 && p.num < uint64(v.localLen)) && p.num < uint64(v.srcLen):
 					how = "corrupt"
 					tm = &tampers[gen.Uniform(rt, len(tampers), "tamper")]
 					if p.num < uint64(v.localLen) {
 						// a request below the local head is revertTask's comparison fetch (fetchers only ask above it)
 						c.Label("corrupt-answer-to-comparison-fetch")
+						// what decides a revert is the HASH the answer claims: half of the corrupt answers to a comparison fetch
+						// claim another hash consistently (block and state update agree, number right) - added after seed C06-j
+						if rapid.Bool().Draw(rt, "comparisonHashTamper") {
+							tm = &tampers[1]
+						}
 						switch tm.name {
 						case tamperRootResealed, tamperForgedParent:
 							// a self-consistent forged block of the right number cannot be told from a real fork block by
